@@ -420,7 +420,8 @@ def unit_plane(ctx):
   isect = z3.And(facing, onplane, t >= 0, inrect)
   pins = []
   for sz, p_, v_, tt in [((0, 0, 1), (0, 0, 2), (0, 0, -1), "2"), ((1, 1, 1), ("1/2", "1/2", 2), (0, 0, -4), "1/2"), ((1, 1, 1), (3, 0, 2), (0, 0, -1), "2"), ((2, 0, 1), (0, 0, 1), (1, 1, -1), "1"), ((0, 0, 1), (1, 1, 1), (1, 0, 0), "-1"), ((0, 0, 1), (0, 0, -2), (0, 0, -1), "-2"), ((1, 1, 1), (1, -1, 2), (0, 0, -2), "1")]:
-    pins.append(z3.And(pin_vec(size, sz), pin_vec(lp, p_), pin_vec(lv, v_), t == Q(tt), pin_mat(M, ROT_PINS[0]), pin_vec(mp["pos"], (0, 0, 0)), pin_vec(mp["pnt"], p_), pin_vec(mp["vec"], v_)))
+    pins.append(z3.And(pin_vec(size, sz), t == Q(tt), world_pins({"M": M, "pos": mp["pos"], "pnt": mp["pnt"], "vec": mp["vec"], "lp": lp, "lv": lv}, mp, p_, v_, rot=len(pins) % len(ROT_PINS))))
+  pins += ray_pins({"M": M, "pos": mp["pos"], "pnt": mp["pnt"], "vec": mp["vec"], "lp": lp, "lv": lv, "size": size}, mp, [(1, 2, 1), (0, 0, 1), (2, 0, 1)])
   names = {"t": t, "lvec_z": lv[2], "lpnt_z": lp[2], "dist": x}
   P = Proof(ctx, kt.bg, names, rp, pins=pins)
   ctx.reach(P.full, "twin:hit", z3.And(isect, pins[1]))
@@ -478,6 +479,7 @@ def unit_sphere(ctx):
   pins = []
   for p_, v_, d_, tt in [((-3, 0, 0), (1, 0, 0), "1", "1"), ((0, 0, 0), (0, 2, 0), "4", "1/2"), ((-3, 2, 0), (1, 0, 0), "1", "1"), ((3, 0, 0), (1, 0, 0), "1", "0"), ((-3, "3/5", 0), (2, 0, 0), "1", "1"), ((-3, 1, 0), (1, 0, 0), "1", "3")]:
     pins.append(z3.And(pin_vec(pos, (0, 0, 0)), pin_vec(pnt, p_), pin_vec(vec, v_), dsq == Q(d_), t == Q(tt)))
+  pins += [z3.And(pin_vec(pos, (1, -2, "1/2")), pin_vec(pnt, [_fr(a_) + _fr(b_) for a_, b_ in zip(o, (1, -2, "1/2"))]), pin_vec(vec, d), dsq == Q(dd)) for i, o in enumerate(PIN_ORIGINS) for j, d in enumerate(PIN_DIRS) if (i + j) % 3 == 0 for dd in ("1", "4")]
   if len(C.quads) != 1:
     ctx.error(f"ray_sphere calls _ray_quad {len(C.quads)} times (expected once): harness does not apply")
     return
@@ -548,9 +550,40 @@ def local_setup(ctx, kname, fkey_summ, geomname):
   return kt, gi, C, T
 
 
-def world_pins(T, mp, lp_, lv_):
-  """pin the pose to the identity so that world = local coordinates (consistent with the _ray_map contract facts)"""
-  return z3.And(pin_mat(T["M"], ROT_PINS[0]), pin_vec(T["pos"], (0, 0, 0)), pin_vec(T["pnt"], lp_), pin_vec(T["vec"], lv_), pin_vec(T["lp"], lp_), pin_vec(T["lv"], lv_))
+def world_pins(T, mp, lp_, lv_, rot=0, pos_=(0, 0, 0)):
+  """pin the local ray (lp_, lv_) together with a pose (rotation ROT_PINS[rot], position pos_) and the world ray that maps to
+  it: pnt = pos + M lp, vec = M lv  (exact rationals; consistent with the _ray_map contract, so the model is replayable)"""
+  from fractions import Fraction as Fr
+
+  Mv = [[Fr(str(ROT_PINS[rot][3 * i + j])) for j in range(3)] for i in range(3)]
+  lpf, lvf, pf = [Fr(str(v)) for v in lp_], [Fr(str(v)) for v in lv_], [Fr(str(v)) for v in pos_]
+  pnt_ = [pf[i] + sum(Mv[i][j] * lpf[j] for j in range(3)) for i in range(3)]
+  vec_ = [sum(Mv[i][j] * lvf[j] for j in range(3)) for i in range(3)]
+  return z3.And(pin_mat(T["M"], ROT_PINS[rot]), pin_vec(T["pos"], pf), pin_vec(T["pnt"], pnt_), pin_vec(T["vec"], vec_), pin_vec(T["lp"], lpf), pin_vec(T["lv"], lvf))
+
+
+def _fr(v):
+  from fractions import Fraction
+
+  return Fraction(str(v))
+
+
+PIN_ORIGINS = [(-3, 0, 0), (0, 0, 0), (-3, 3, 0), (0, 0, 3), ("1/2", "1/4", -3), (-2, -2, -2), ("3/2", 0, "1/4"), (0, -3, "1/2"), ("1/4", "1/4", "1/4"), (0, "5/2", "3/2"), (-3, 0, "3/2"), ("1/2", 0, 3)]
+PIN_DIRS = [(1, 0, 0), (0, 1, 0), (0, 0, -1), (0, 0, 1), (1, 1, 0), (1, 0, -1), (2, 1, 0), (1, 1, 1), (-1, -1, -1), (0, -1, -1), (1, 0, "-1/2"), (0, 2, -1), (-1, 0, -2), (3, -3, 0)]
+
+
+def ray_pins(T, mp, sizes, extra=()):
+  """deterministic family of fully pinned inputs (sizes x local rays x poses) for the counterexample search"""
+  out = []
+  k = 0
+  for sz in sizes:
+    for i, o in enumerate(PIN_ORIGINS):
+      for j, d in enumerate(PIN_DIRS):
+        if (i + j + k) % 2:
+          continue
+        out.append(z3.And(pin_vec(T["size"], sz), world_pins(T, mp, o, d, rot=(i + j) % len(ROT_PINS), pos_=(0, 0, 0) if (i + j) % 2 else (1, -2, "1/2"))))
+    k += 1
+  return list(extra) + out
 
 
 def rotated_normal(P, ctx, kt, gi, T, name):
@@ -606,6 +639,7 @@ def unit_ellipsoid(ctx):
   pins = []
   for sz, p_, v_, tt, ss in [((1, 2, 1), (-3, 0, 0), (1, 0, 0), "1", (1, "1/4", 1)), ((1, 2, 1), (0, 0, 0), (0, 1, 0), "1", (1, "1/4", 1)), ((1, 2, 1), (-3, 3, 0), (1, 0, 0), "1", (1, "1/4", 1)), (("1/2", 1, 2), (0, 0, 5), (0, 0, -1), "2", (4, 1, "1/4"))]:
     pins.append(z3.And(pin_vec(size, sz), world_pins(T, C.maps[0], p_, v_), t == Q(tt), pin_vec(S, ss)))
+  pins += [z3.And(pn, pin_vec(S, ss)) for szs, ss in (((1, 2, 1), (1, "1/4", 1)), (("1/2", 1, 2), (4, 1, "1/4"))) for pn in ray_pins(T, C.maps[0], [szs])]
   names = {"t": t, "dist": x, "det": det}
   P = Proof(ctx, kt.bg + pre, names, rp, pins=pins)
   ctx.reach(P.full, "twin:outside-hit", z3.And(pins[0], x == 2))
@@ -730,6 +764,7 @@ def unit_box(ctx):
   pins = []
   for sz, p_, v_, tt in [((1, 2, 1), (-3, 0, 0), (1, 0, 0), "1"), ((1, 2, 1), (0, 0, 0), (0, 1, 0), "1"), ((1, 2, 1), (-3, 3, 0), (1, 0, 0), "1"), ((1, 1, 1), (-3, -2, 0), (2, 1, 0), "1"), ((1, 2, "1/2"), (0, 0, 3), (0, "1/2", -1), "1"), ((1, 1, 1), (0, 0, 3), (0, 0, 1), "1")]:
     pins.append(z3.And(pin_vec(size, sz), world_pins(T, mp, p_, v_), t == Q(tt)))
+  pins += ray_pins(T, mp, [(1, 2, 1), (1, 1, '1/2')])
   names = {"t": t, "dist": x}
   P = Proof(ctx, kt.bg + pre, names, rp, pins=pins)
   ctx.reach(P.full, "twin:outside-hit", z3.And(pins[0], x == 2))
@@ -846,6 +881,7 @@ def unit_cylinder(ctx):
   pins = []
   for sz, p_, v_, tt in [((1, 2, 0), (-3, 0, 0), (1, 0, 0), "1"), ((1, 2, 0), (0, 0, 0), (0, 0, 1), "1"), ((1, 2, 0), (-3, 3, 0), (1, 0, 0), "1"), ((1, 1, 0), (0, 0, 3), (0, 0, -1), "1"), ((1, 1, 0), (-2, 0, 2), (1, 0, -1), "1"), ((1, 1, 0), ("-1/2", 0, 3), (1, 0, -2), "1")]:
     pins.append(z3.And(pin_vec(size, sz), world_pins(T, mp, p_, v_), t == Q(tt)))
+  pins += ray_pins(T, mp, [(1, 2, 0), (1, '1/2', 0)])
   names = {"t": t, "dist": x, "radial_det": det}
   P = Proof(ctx, kt.bg + pre, names, rp, pins=pins)
   ctx.reach(P.full, "twin:round-hit", z3.And(pins[0], x == 2))
@@ -993,6 +1029,7 @@ def unit_capsule(ctx):
   pins = []
   for sz, p_, v_, tt in [((1, 2, 0), (-3, 0, 0), (1, 0, 0), "1"), ((1, 2, 0), (0, 0, 0), (0, 0, 1), "1"), ((1, 2, 0), (-3, 3, 0), (1, 0, 0), "1"), ((1, 1, 0), (0, 0, 4), (0, 0, -1), "1"), ((1, 1, 0), (-3, 0, "8/5"), (1, 0, 0), "1"), ((1, 1, 0), ("-1/2", 0, 3), (1, 0, -2), "1")]:
     pins.append(z3.And(pin_vec(size, sz), world_pins(T, mp, p_, v_), t == Q(tt)))
+  pins += ray_pins(T, mp, [(1, 2, 0), (1, '1/2', 0)])
   names = {"t": t, "dist": x, "radial_det": det}
   P = Proof(ctx, kt.bg + pre, names, rp, pins=pins)
   ctx.reach(P.full, "twin:round-hit", z3.And(pins[0], x == 2))
